@@ -34,6 +34,9 @@ pub enum Alt {
     Earlier(usize),
     ParallelOtherKeys,
     ParallelSameStatics,
+    /// replace the ephemeral public key by a different encoding / related valid point that
+    /// yields the same DH outputs: P-256 (X, Y) -> (X, p - Y); X25519: top bit of u set
+    RelatedEphemeral,
 }
 
 #[derive(Clone, Debug, Serialize, Deserialize)]
@@ -106,6 +109,33 @@ fn oracle(c: &Case, acc: &mut Acc) -> CaseResult {
             m
         },
         Alt::Earlier(j) => earlier.get(*j).cloned().unwrap_or_else(|| genuine.clone()),
+        Alt::RelatedEphemeral => {
+            let mut m = genuine.clone();
+            if let Some(f) = lay[c.idx].fields.iter().find(|f| f.kind == FieldKind::E) {
+                if spec.suite.dh == DhKind::P256 {
+                    // p = 2^256 - 2^224 + 2^192 + 2^96 - 1 (big endian)
+                    let p: [u8; 32] = [
+                        0xff, 0xff, 0xff, 0xff, 0x00, 0x00, 0x00, 0x01, 0, 0, 0, 0, 0, 0, 0, 0, 0, 0, 0, 0, 0xff, 0xff, 0xff, 0xff, 0xff, 0xff, 0xff, 0xff, 0xff, 0xff,
+                        0xff, 0xff,
+                    ];
+                    let y = &mut m[f.off + 33..f.off + 65];
+                    let mut borrow = 0i32;
+                    for i in (0..32).rev() {
+                        let d = p[i] as i32 - y[i] as i32 - borrow;
+                        if d < 0 {
+                            y[i] = (d + 256) as u8;
+                            borrow = 1;
+                        } else {
+                            y[i] = d as u8;
+                            borrow = 0;
+                        }
+                    }
+                } else {
+                    m[f.off + 31] ^= 0x80;
+                }
+            }
+            m
+        },
         Alt::ParallelOtherKeys => parallel(false)?,
         Alt::ParallelSameStatics => parallel(true)?,
     };
@@ -129,6 +159,9 @@ fn oracle(c: &Case, acc: &mut Acc) -> CaseResult {
         }
     }
     let structural = matches!(c.alt, Alt::Earlier(_) | Alt::ParallelOtherKeys | Alt::ParallelSameStatics);
+    if c.alt == Alt::RelatedEphemeral {
+        acc.label(format!("related_ephemeral:{}", spec.suite.dh.name()));
+    }
     // deliver
     let mut buf = vec![0u8; 65535 + 64];
     let res = {
@@ -269,6 +302,9 @@ fn alterations(spec: &SessionSpec, idx: usize, plen: usize, all_bits: bool, all_
         out.push(Alt::Earlier(j));
     }
     out.push(Alt::ParallelOtherKeys);
+    if l.has_e {
+        out.push(Alt::RelatedEphemeral);
+    }
     if !spec.pattern().is_oneway() {
         out.push(Alt::ParallelSameStatics);
     }
@@ -281,12 +317,18 @@ pub fn run(ctx: &Ctx) {
     let names = some_hs_names(if thorough { 5 } else { 2 });
     let mut cases = Vec::new();
     for (ni, hs) in names.iter().enumerate() {
-        let suite = suites[(ni * 7 + 2) % suites.len()];
-        let spec = SessionSpec::simple(hs.clone(), suite, mix(ctx.seed, ni as u64));
-        for idx in 0..spec.n_msgs() {
-            for plen in [0usize, 9] {
-                for a in alterations(&spec, idx, plen, false, false, mix(ctx.seed, (ni * 10 + idx) as u64)) {
-                    cases.push(Case { spec: spec.clone(), idx, alt: a, plen });
+        // one 25519 and one P-256 suite per handshake string
+        for half in 0..2 {
+            let suite = suites[half * 12 + (ni * 7 + 2) % 12];
+            let spec = SessionSpec::simple(hs.clone(), suite, mix(ctx.seed, (ni * 2 + half) as u64));
+            for idx in 0..spec.n_msgs() {
+                for plen in [0usize, 9] {
+                    if half == 1 && plen == 9 && !thorough {
+                        continue;
+                    }
+                    for a in alterations(&spec, idx, plen, false, false, mix(ctx.seed, (ni * 10 + idx) as u64)) {
+                        cases.push(Case { spec: spec.clone(), idx, alt: a, plen });
+                    }
                 }
             }
         }
